@@ -94,6 +94,11 @@ func (k *Keys) readInputFiltered() (keys []byte, err error) {
 		return
 	}
 
+	// Other errors must be reported too, or the caller reads again for ever.
+	if err != nil && read == 0 {
+		return nil, err
+	}
+
 	// Always attempt to extract cursor position info.
 	// If found, strip it and keep the remaining keys.
 	cursor, keys := k.extractCursorPos(buf[:read])
